@@ -531,6 +531,8 @@ struct Ed<'a> {
     /// E27: byte offsets of closure literals handed directly to a predicate-taking method (`filter`, `any`, ..)
     bool_pred_closures: Vec<usize>,
     pub auto_pred_headers: usize,
+    /// source ranges whose text is REPLACED by declared text (E24 statements, E25 closures): the piece does not cover them
+    pub dropped: Vec<(usize, usize)>,
 }
 
 impl<'a> Ed<'a> {
@@ -599,6 +601,7 @@ impl<'a> Ed<'a> {
             param_renames: vec![],
             bool_pred_closures: vec![],
             auto_pred_headers: 0,
+            dropped: vec![],
         }
     }
     /// E22 (cont.): the body of an inlined closure is no longer a closure body, so a `return` in it would
@@ -758,6 +761,7 @@ impl<'a, 'ast> Visit<'ast> for Ed<'a> {
             if anchor_match(txt, anchor.as_str()) {
                 self.restmts_used[k] += 1;
                 self.push(r.start, r.end, text.trim_end().to_string(), "E24-statement-replaced-by-declared-text", true);
+                self.dropped.push((r.start, r.end));
                 return;
             }
         }
@@ -1339,6 +1343,7 @@ impl<'a, 'ast> Visit<'ast> for Ed<'a> {
             if let Some(repl) = h.trim().strip_prefix("=>") {
                 let end = c.span().byte_range().end;
                 self.push(start, end, repl.trim().to_string(), "E25-closure-replaced-by-declared-value", true);
+                self.dropped.push((start, end));
                 return;
             }
             // `$k` in a spliced header stands for the name the source gives to parameter k, so that
@@ -2484,9 +2489,22 @@ fn main() {
                         *counts.entry("empty-slice".into()).or_insert(0) += 1;
                         "        // vx: EMPTY slice — no statement between the two anchors\n".to_string()
                     } else {
+                        // `@@tail name` on a slice that ends in the block's tail expression: the value is bound
+                        // (the binding is the outermost edit at both ends: pushed before / after the visit)
+                        let tail_expr = match (&d.tail, &blk.stmts[b]) {
+                            (Some(tn), syn::Stmt::Expr(e, None)) => Some((tn.clone(), e.span().byte_range())),
+                            (Some(_), _) => die(&format!("{ctx}: @@tail but the slice does not end in a tail expression")),
+                            _ => None,
+                        };
+                        if let Some((tn, r)) = &tail_expr {
+                            ed.push(r.start, r.start, format!("let {tn} = "), "splice-tail-binding", false);
+                        }
                         ed.before_next_pass(&blk.stmts[a..=b]);
                         for s in &blk.stmts[a..=b] {
                             ed.visit_stmt(s);
+                        }
+                        if let Some((_, r)) = &tail_expr {
+                            ed.push(r.end, r.end, ";", "splice-tail-binding", false);
                         }
                         ed.finish_cfg();
                         check_used(&ed, d, &ctx);
@@ -2754,6 +2772,7 @@ fn main() {
                     "name": if d.is_slice && !last_text_fn.is_empty() { last_text_fn.clone() } else if d.hoist.is_some() && !hoist_name.is_empty() { hoist_name.clone() } else { d.name.clone().unwrap_or_else(|| f.sig.ident.to_string()) },
                     "src_lines": [line_of(&src.text, src_range.0), line_of(&src.text, src_range.1)],
                     "src_bytes": [src_range.0, src_range.1],
+                    "dropped_bytes": ed.dropped.iter().map(|(a, b)| vec![*a, *b]).collect::<Vec<_>>(),
                     "params": fn_params,
                     "fn_bytes": [f.sig.span().byte_range().start, f.block.span().byte_range().end],
                     "out_lines": [l0, cur_line(&output)],
